@@ -69,6 +69,13 @@ class Env:
             raise RuntimeError(f'replay value {name}={v} outside [{lo},{hi})')
         return v
 
+    def var(self, name):
+        """A variable already introduced (by a stub) on this path, with the range the code gave it."""
+        if name not in self.vars or (self.mode == 'sym' and name not in self.declared):
+            raise KeyError(f'variable {name} was not introduced on this path')
+        lo, hi = self.vars[name]
+        return self.fresh(name, lo, hi)
+
     def fresh_bool(self, name):
         b = self.fresh(name, 0, 2)
         return b == 1
